@@ -211,6 +211,15 @@ def _r3(model, res, m):
                 v = guards.const_number(n.args[1], consts)
                 if v is not None:
                     radix.append((src(n), v))
+        # exact integer arithmetic: a quotient taken through a float is wrong from 2**53 on (labels of 12+ letters)
+        inexact = [n for n in walk_no_defs(f) if (isinstance(n, (ast.BinOp, ast.AugAssign)) and isinstance(n.op, ast.Div)) or
+                   (isinstance(n, ast.Call) and sa.call_name(n) in ('float', 'math.log', 'math.pow', 'math.fmod', 'math.log10', 'math.log2', 'pow')
+                    and sa.call_name(n) != 'pow')]
+        res.ob('R3', '%s:%s' % (m.name, fname), 'column arithmetic is exact integer arithmetic', not inexact, '; '.join(src(n) for n in inexact))
+        if inexact:
+            res.violation('R3', '%s:%s:float-arithmetic' % (m.name, fname), m.where(inexact[0]),
+                          '%s computes with floating point (%s): the quotient is inexact for column indices from 2**53 on, so long column labels '
+                          'and their indices no longer correspond one-to-one' % (fname, src(inexact[0])), func=fname)
         bad = [r for r in radix if r[1] != 26]
         okr = bool(radix) and not bad
         res.ob('R3', '%s:%s' % (m.name, fname), 'radix is the alphabet length (26)', okr, radix)
